@@ -27,7 +27,7 @@ THOROUGH = {"batches": 5000, "wall": 900.0}
 
 valid_case = generic.valid_case
 SHRINK_PLAN = False
-DIRECT = {"set", "trigger", "read", "stage", "unstage", "kickoff", "complete", "collect", "collect_pages", "describe", "read_configuration", "describe_configuration", "describe_collect"}
+DIRECT = {"set", "trigger", "read", "stage", "unstage", "kickoff", "complete", "collect", "collect_pages", "describe", "read_configuration", "describe_configuration", "describe_collect", "locate"}
 
 
 def wrap_points(pg, body):
@@ -131,6 +131,26 @@ def cases(seed, tier):
             if variant != "rewait":
                 c["script"][0]["inject"] = [{"id": "p", "at": {"msg": 7 if variant == "pause" else 9, "plus": rng.choice([0, 1, 2])}, "do": "pause"}]
                 c["script"][0]["decisions"] = [{"do": "resume"}]
+            yield c
+    # the messages that address several objects at once ('locate' a, b ...): one of the devices fails, synchronously
+    # or after really awaiting; the error belongs to that yield like any other
+    if len(pg.motors) >= 1:
+        objs = (pg.motors + pg.dets)[:3]
+        for j in range(3):
+            failing = rng.choice([o for o in objs if specs[o]["kind"] in ("motor", "pmotor")])
+            locate = msg(S, "locate", objs[0], *[{"dev": o} for o in objs[1:] if specs[o]["kind"] in ("motor", "pmotor")], **({"squeeze": False} if rng.random() < 0.4 else {}))
+            handler = rng.choice([None, "Exception", "DeviceFault"])
+            node = locate if handler is None else {"op": "try", "site": S(), "body": [locate], "handlers": [{"exc": handler, "body": [msg(S, "null")], "reraise": rng.random() < 0.3}]}
+            g = pg.group()
+            plan = [msg(S, "checkpoint"), msg(S, "null"), node, msg(S, "set", pg.motors[0], 5.0, group=g), msg(S, "wait", None, group=g), msg(S, "null")]
+            c = copy.deepcopy(case)
+            c["variant"] = f"multi-object-locate-{j}"
+            c["script"][0]["plan"] = plan
+            for dev in objs:
+                c["devices"][dev].pop("faults", None)
+                if specs[dev]["kind"] in ("motor", "pmotor") and rng.random() < 0.7:
+                    c["devices"][dev].setdefault("async", {})["locate"] = rng.choice([0.0, 0.05])
+            c["devices"][failing].setdefault("faults", {})["locate#0"] = {"kind": "raise", "exc": rng.choice(["RuntimeError", "ValueError"])}
             yield c
 
 
